@@ -56,6 +56,7 @@ type C10Case struct {
 	Mtime  string   `json:"mtime"`
 	Call   string   `json:"call"`
 	Layout string   `json:"layout"`
+	Form   string   `json:"form"` // put: the name as the caller spells it, "abs" or "rel" (relative to the endpoint path)
 }
 
 // handlerClient lets a real client talk to a real handler in process.
@@ -541,6 +542,9 @@ func c10one(c C10Case, cc c10conc, ev map[string]interface{}) {
 		ev["want"] = []objRow{{"recvpath": c.Path, "recvdata": c.Data, "path": c.Rpath, "etag": c.Etag, "mtime": c.Mtime}}
 		p := cc.objPath(c.Srv, c.Path)
 		rp := cc.objPath(c.Srv, c.Rpath)
+		if c.Form == "rel" {
+			p = strings.TrimPrefix(p, "/") // the endpoint is the host root: the same resource
+		}
 		g := objRow{"recvpath": "?", "recvdata": "?", "path": "?", "etag": "?", "mtime": "?"}
 		if c.Srv == "cal" {
 			calBe.PutResult = func(path string, cal *ical.Calendar) (*caldav.CalendarObject, error) {
